@@ -33,17 +33,19 @@ def _setup_path():
 
 
 def ensure_deps():
-    """icontract beside the repo's interpreter (offline wheelhouse)."""
-    if os.path.isdir(os.path.join(DEPS, 'icontract')):
-        return True
-    cmd = [PY, '-m', 'pip', 'install', '-q', '--no-index', '--find-links',
-           '/opt/veriftools/wheels', '--target', DEPS, 'icontract']
+    """Nothing outside /venv is needed: the monitors are plain Python (monkey patches, wrappers, reference models).
+    Setup only verifies that the interpreter imports textX from the checkout under test and its dependencies."""
     try:
-        subprocess.run(cmd, check=True, stdout=subprocess.DEVNULL,
-                       stderr=subprocess.DEVNULL, timeout=300)
-    except Exception:
+        _setup_path()
+        import textx
+        import arpeggio
+        import click  # noqa: F401
+        where = os.path.dirname(os.path.dirname(os.path.abspath(textx.__file__)))
+        print('setup: textx from %s, arpeggio %s' % (where, getattr(arpeggio, '__version__', '?')))
+        return True
+    except Exception as e:      # pragma: no cover
+        print('setup: import problem: %r' % e)
         return False
-    return True
 
 
 def load_prop(pid):
@@ -229,9 +231,9 @@ def parent(args):
         return 2
     os.makedirs(os.path.join(OUT, 'replay'), exist_ok=True)
     os.makedirs(os.path.join(OUT, 'shards'), exist_ok=True)
-    os.makedirs(os.path.join(ROOT, 'evidence'), exist_ok=True)
-    if getattr(mod, 'NEEDS_DEPS', False):
-        ensure_deps()
+    # runs against another checkout (seeded changes, mutants) must not overwrite the evidence of /repo
+    evdir = os.path.join(OUT, 'evidence-other-checkout') if os.environ.get('TV_REPO') else os.path.join(ROOT, 'evidence')
+    os.makedirs(evdir, exist_ok=True)
     budget = args.budget or (getattr(mod, 'QUICK_S', 40) if tier == 'quick'
                              else getattr(mod, 'THOROUGH_S', 600))
     nshards = args.shards or getattr(mod, 'SHARDS', min(16, os.cpu_count() or 4))
@@ -380,7 +382,7 @@ def parent(args):
         'violations': n_viol,
         'verdict': 'violated' if exit_code == 1 else ('inconclusive' if (unmet or problems) else 'held-on-observed'),
     }
-    with open(os.path.join(ROOT, 'evidence', pid + '.json'), 'w') as f:
+    with open(os.path.join(evdir, pid + '.json'), 'w') as f:
         json.dump(ev, f, indent=1, sort_keys=True)
     summary = ' '.join('%s=%s' % kv for kv in sorted(counters.items()))
     print('%s tier=%s seed=%d evaluations=%d distinct_nontrivial=%d wall=%.1fs %s' % (
@@ -436,9 +438,7 @@ def main(argv=None):
     ap.add_argument('--setup', action='store_true')
     args = ap.parse_args(argv)
     if args.setup:
-        ok = ensure_deps()
-        print('setup: icontract %s' % ('available' if ok else 'NOT installed (checks fall back)'))
-        return 0
+        return 0 if ensure_deps() else 2
     if args.worker:
         return worker(args)
     if args.replay:
